@@ -757,6 +757,14 @@ class PEval:
                     return v
         if k == 'CXXScalarValueInitExpr':
             return 0
+        if k == 'CXXStdInitializerListExpr':
+            # std::initializer_list<T>{a, b, c}: the materialised array of its elements
+            inner = strip(kids(n)[0]) if kids(n) else None
+            while inner is not None and inner.get('kind') in ('MaterializeTemporaryExpr', 'ImplicitCastExpr', 'ExprWithCleanups') and kids(inner):
+                inner = strip(kids(inner)[0])
+            if inner is not None and inner.get('kind') == 'InitListExpr':
+                return VecL([self.ev(c, env, depth) for c in kids(inner) if c.get('kind') and c.get('kind') != 'ImplicitValueInitExpr'])
+            raise Undecided('initializer_list form')
         if k == 'InitListExpr':
             ks = [c for c in kids(n) if c.get('kind')]
             if len(ks) == 1:
